@@ -21,6 +21,14 @@ for f in sorted(glob.glob(os.path.join(HERE, "seeded", "*", "meta.json"))):
         note = " — demo no longer fails at HEAD (neutralised by a fix: commit)"
     summ = (m.get("summary") or "").replace("\n", " ").replace("|", "/")
     rows.append(f"| {m['name']} | {summ[:170]} | {', '.join(det) or '—'} | {', '.join(missed) or ''}{note} |")
-print("| seed | change (summary by its author) | detected by (suite) | not detected by |")
-print("|---|---|---|---|")
-print("\n".join(rows))
+table = "| seed | change (summary by its author) | detected by (suite) | not detected by |\n|---|---|---|---|\n" + "\n".join(rows)
+import sys
+if "--inject" in sys.argv:
+    # rewrite the block between the two markers in DESIGN.md
+    d = os.path.join(HERE, "DESIGN.md")
+    src = open(d).read()
+    b, e = "<!-- SEEDTABLE:BEGIN -->", "<!-- SEEDTABLE:END -->"
+    i, j = src.index(b), src.index(e)
+    open(d, "w").write(src[: i + len(b)] + "\n" + table + "\n" + src[j:])
+else:
+    print(table)
